@@ -4,7 +4,7 @@ CONSTANTS
   Bodies <- BodiesH2
   TickMs <- Ticks1
   MaxTicks = 3
-  MaxPre = 5
+  MaxPre = 7
 INVARIANT NoMix
 INVARIANT Joined
 INVARIANT EndFrame
